@@ -827,7 +827,54 @@ def c11c(F, R):
             inter = [m for m in walk(n["cond"], pats=False) if m.get("k") == "MethodCall" and m["name"] == "intersection"]
             if inter and mentions_call(n["cond"], "is_some"):
                 guard = (n, inter[0])
+    flag = None
     if guard is None:
+        # alternative form: a boolean accumulated per label and consumed at the instruction
+        for n in walk(f["hir"]["value"], pats=False):
+            if n.get("k") == "If" and fe and any(x is fe[0] for x in walk(n["then"], pats=False)):
+                locs = [x["res"] for x in walk(n["cond"], pats=False) if x.get("k") == "Path" and x.get("res_kind") == "Local"]
+                if len(set(locs)) == 1 and locs[0] in lets and (lets[locs[0]]["pat"].get("ty") or peel(lets[locs[0]]["init"]).get("ty")) == "bool":
+                    flag = (n, locs[0])
+    if guard is None and flag is not None:
+        n, B = flag
+        writes = []
+        for x in walk(f["hir"]["value"], pats=False):
+            if x.get("k") == "Assign" and ekey(x["l"]) == B:
+                writes.append(("=", x))
+            elif x.get("k") == "AssignOp" and ekey(x["l"]) == B:
+                writes.append((x["op"], x))
+        contains = [w for w in writes if any(m.get("k") == "MethodCall" and m["name"] == "contains" for m in walk(w[1]["r"], pats=False))]
+        CN = None
+        for op, w in contains:
+            for m in walk(w["r"], pats=False):
+                if m.get("k") == "MethodCall" and m["name"] == "contains":
+                    CN = ekey(m["recv"])
+        bad = False
+        if not contains:
+            R.bad("func-entry-guard", f"the flag `{B}` guarding function-entry insertion is never computed from a membership test on the call names", loc(n))
+            bad = True
+        for op, w in contains:
+            accum = op == "BitOrAssign" or (op == "=" and any(y.get("k") == "Path" and y.get("res") == B for y in walk(w["r"], pats=False)))
+            if not accum:
+                R.bad("func-entry-guard", f"`{B} = {CN}.contains(label)` overwrites the flag at every label: when several labels sit on one entry only the last one decides whether it is a function (a called label followed by a plain one is not a function)", loc(w))
+                bad = True
+        reset = any(m.get("k") == "Call" and (callee_of(m) or "").endswith("mem::take") and B in ekey(m["args"][0]) for m in walk(n["cond"], pats=False)) \
+            or any(op == "=" and lit_value(w["r"]) is False for op, w in writes)
+        if not reset and not bad:
+            R.bad("func-entry-guard", f"the flag `{B}` is never reset after the labels are consumed: every later instruction becomes a function entry", loc(n))
+            bad = True
+        cn = lets.get(CN) if CN else None
+        if cn is not None:
+            callees = {short(callee_of(x) or "") for x in walk(cn["init"], pats=False) if x.get("k") in ("MethodCall", "Call")}
+            if "call_names" in callees:
+                R.ok("call_names", detail=f"{CN} = <nodes>.call_names() ∪ predefined names")
+            else:
+                R.bad("call_names", f"the call-name set `{CN}` is built from {sorted(callees)}", loc(cn))
+        elif not bad:
+            R.bad("call_names", f"UNEXTRACTABLE: no binding for the call-name set `{CN}`", f["sp"])
+        if not bad:
+            R.ok("func-entry-guard", detail=f"FuncEntry inserted iff some label since the last instruction is in {CN} (flag `{B}` accumulated with |=, reset on use)")
+    elif guard is None:
         R.bad("func-entry-guard", "function-entry insertion is no longer guarded by `<current labels> ∩ <call names> ≠ ∅`", f["sp"])
     else:
         n, inter = guard
